@@ -247,7 +247,10 @@ def m_exec(it, code, g=None, l=None):
     if not isinstance(code, str):
         raise Unsupported("exec of non-literal code")
     it.event("exec", code, g)
-    tree = ast.parse(code)
+    try:
+        tree = ast.parse(code)
+    except SyntaxError as e:
+        raise PyRaise(e)
     m = PModule("<exec>")
     m.g = g if g is not None else {}
     if l is not None and l is not g:
